@@ -174,6 +174,10 @@ extern "C" void vf_main(void) {
     const uint32_t blocks0 = vf_live_blocks();
     const uint32_t ev0 = vf_tr_events(); (void)ev0;
 
+    // growth capacity the run-time rule gives for this pre-state and request (the kernel has no constant-evaluation branch)
+    std::size_t kexp = cap0;
+    if (required > cap0 && required <= v.max_size()) kexp = (std::size_t)((typename V::base&)v).unchecked_calculate_new_capacity((typename V::size_ty)required);
+
     // ---- the operation
     int threw = 0;
     std::size_t ret = 0; int have_ret = 0; uint32_t retval = 0; int have_retval = 0;
@@ -327,8 +331,9 @@ extern "C" void vf_main(void) {
       // ---- C10 / C04: no reallocation while capacity suffices; prefix untouched
       if (VF_OP != OP_shrink && ((VF_OP == OP_reserve) ? (a <= cap0) : (nsz <= cap0))) {
         vf_assert(cap1 == cap0, "C10: capacity() unchanged when the result fits the old capacity");
+        vf_assert(cap1 == kexp, "C08: capacity() equals the run-time result (no growth needed)");
         vf_assert(data1 == data0, "C10: data() unchanged when the result fits the old capacity");
-        vf_assert(vf_nalloc() == nalloc0, "C04: no allocate() when the result fits the existing capacity");
+        if (!VF_CE) vf_assert(vf_nalloc() == nalloc0, "C04: no allocate() when the result fits the existing capacity");
         if (E::instrumented) for (unsigned i = 0; i < VF_CAP; ++i) if (i < fm && i < size)
           vf_assert(E::touch(data1 + i) == touch0[i], "C10: elements before the first modified position are not touched");
 #if VF_OP == OP_reserve
@@ -337,12 +342,13 @@ extern "C" void vf_main(void) {
       } else if (VF_OP != OP_shrink) {
         vf_witness("reallocating path");
         // ---- C14: geometric growth
+        vf_assert(cap1 == kexp, "C08: growth capacity equals the run-time growth rule applied to the same state and request");
         vf_assert(cap1 >= required, "C14: new capacity() is at least the required size");
         vf_assert(cap1 >= cap0 + cap0 / 2 || cap1 == v.max_size(), "C14: new capacity() is at least 1.5x the old capacity (or max_size())");
-        vf_assert(vf_nalloc() == nalloc0 + 1, "C10: a growing call that knows its count reallocates at most once");
+        if (!VF_CE) vf_assert(vf_nalloc() == nalloc0 + 1, "C10: a growing call that knows its count reallocates at most once");
         if (E::instrumented) {
           // each old element relocated at most once: one construction from it, one destruction of it
-          vf_assert(vf_ndealloc() == ndealloc0 + (cap0 > VF_N ? 1u : 0u), "C04: the old block is released exactly once on reallocation");
+          if (!VF_CE) vf_assert(vf_ndealloc() == ndealloc0 + (cap0 > VF_N ? 1u : 0u), "C04: the old block is released exactly once on reallocation");
         }
       }
 #if VF_OP == OP_reserve
@@ -353,6 +359,7 @@ extern "C" void vf_main(void) {
 #endif
 #if VF_OP == OP_shrink
       vf_assert(cap1 == (size > VF_N ? size : VF_N), "C02: after shrink_to_fit capacity() == max(size(), inline_capacity())");
+      vf_assert(cap1 == (size > VF_N ? size : VF_N), "C08: shrink_to_fit gives the same capacity() as at run time");
 #endif
     } else if (threw == 1) {
       vf_witness("exceptional exit (injected fault)");
@@ -391,7 +398,8 @@ extern "C" void vf_main(void) {
       vf_assert(vf_tr_live() == live_before_all + (int32_t)v.size() + harness_objs,
                 "C03: live element objects == size() (temporaries of the operation are gone)");
     }
-    vf_assert(vf_live_blocks() == (cap1 > VF_N ? 1u : 0u), "C04: live blocks are exactly the buffers of the non-inlined containers");
+    if (VF_CE) vf_assert(vf_live_blocks() == 1u, "C08: under constant evaluation the only live allocation after an operation is the container's buffer (temporaries released)");
+    else vf_assert(vf_live_blocks() == (cap1 > VF_N ? 1u : 0u), "C04: live blocks are exactly the buffers of the non-inlined containers");
 
 #if VF_FMASK != 0
     if (threw) {
@@ -409,4 +417,5 @@ extern "C" void vf_main(void) {
   }
   vf_assert(vf_live_blocks() == 0, "C04: every allocated block was released by the time the container is destroyed");
   vf_assert(vf_nalloc() == vf_ndealloc(), "C04: allocate/deallocate calls are paired");
+  if (VF_CE) vf_assert(vf_live_blocks() == 0 && vf_nalloc() == vf_ndealloc(), "C08: no unreleased allocation at the end of the evaluation");
 }
